@@ -13,7 +13,8 @@ PROP = 'C03'
 RULE = ('cells = (biort in 4 names, qshift in 5 names, J in 1..5, HxW from 2..37 crossed so rows != cols, '
         'odd and non-multiple-of-4 sizes and images smaller than the filters included); per cell an '
         'impulse batch (all impulses up to 12x12, 48 sampled impulses above) and dense / dynamic-range / '
-        'structured inputs; distinct by (cell, input kind); non-trivial when the input is not all-zero')
+        'structured inputs; distinct by (cell, input kind); non-trivial when the input is not all-zero'
+        '; N in {1,2,6}, C in {1,2,3,4,6} and a few cells with 32..64 channels or batch items; the dense random input repeated inside torch.no_grad(); reload histories; filters given directly')
 ASSUMPTIONS = ['dtcwt 0.14 (NumPy backend) Transform2d.forward is the specification', 'float64',
                'sides <= 37, J <= 5']
 TIMEOUT = {'quick': 900, 'thorough': 3300}
